@@ -32,7 +32,7 @@ impl Bitfield<Dynamic> {
         if len % 8 != 0 {
             return Err(Error::InvalidByteCount {
                 given: len,
-                expected: (len / 8 + 1) * 8,
+                expected: (len / 8 + 1).saturating_mul(8),
             });
         }
         Ok(Self {
